@@ -105,6 +105,12 @@ impl Model {
     }
     pub fn ask(&mut self, line: &str) -> String {
         debug_assert!(!line.contains('\n'));
+        // debugging aid: VERIF_DUMP_REQ=<file> appends every model request (one per line)
+        if let Ok(p) = std::env::var("VERIF_DUMP_REQ") {
+            if let Ok(mut f) = std::fs::OpenOptions::new().create(true).append(true).open(p) {
+                let _ = writeln!(f, "{line}");
+            }
+        }
         if self.stdin.write_all(line.as_bytes()).is_err()
             || self.stdin.write_all(b"\n").is_err()
             || self.stdin.flush().is_err()
